@@ -356,6 +356,12 @@ def r4(F, R):
             if g not in ms:
                 if g != "execution_has_failed":
                     R.violation(f"{short_adt(adt)}/{g}", None, f"impl Stats for {adt} lacks {g}")
+                elif expect == "delegate":
+                    # a transparent wrapper of ONE writer answers what that writer answers: the provided default recomputes the verdict
+                    # from three counters and so ignores a wrapped writer that decides `execution_has_failed` itself
+                    anyb = next(iter(ms.values()))
+                    R.violation(f"{adt.replace('writer::', '')}/{g}", anyb, f"impl Stats for {adt} does not forward execution_has_failed() to the wrapped writer "
+                                f"(it falls back to the provided default, which ignores the wrapped writer's own verdict)")
                 continue
             c = classify_getter(F, ms[g], g)
             inst = f"{adt.replace('writer::', '')}/{g}"
